@@ -218,3 +218,24 @@ fn k_hist_header_box_single_pointz() {
     assert!(le64(&shp_buf, 68) == z.to_bits() && le64(&shp_buf, 76) == z.to_bits());
     assert!(le64(&shp_buf, 84) == 3.0f64.to_bits() && le64(&shp_buf, 92) == 3.0f64.to_bits());
 }
+
+/// C09 / C02 / C08 (n = 0): a writer that is dropped without any write still leaves two complete, empty shapefiles
+/// (100-byte headers announcing 50 words, null shape type)
+#[kani::proof]
+#[kani::unwind(24)]
+fn k_hist_empty_writer_drop() {
+    let mut shp_buf = [0xAAu8; 120];
+    let mut shx_buf = [0xAAu8; 120];
+    let explicit: bool = kani::any();
+    {
+        let mut w = ShapeWriter::with_shx(Mem { buf: &mut shp_buf[..], pos: 0, len: 0 }, Mem { buf: &mut shx_buf[..], pos: 0, len: 0 });
+        if explicit {
+            let r = w.finalize();
+            assert!(r.is_ok());
+            std::mem::forget(r);
+        }
+    }
+    assert!(be32(&shp_buf, 0) == 9994 && be32(&shp_buf, 24) == 50 && le32(&shp_buf, 28) == 1000 && le32(&shp_buf, 32) == 0);
+    assert!(be32(&shx_buf, 0) == 9994 && be32(&shx_buf, 24) == 50 && le32(&shx_buf, 28) == 1000 && le32(&shx_buf, 32) == 0);
+    assert!(shp_buf[99] != 0xAA && shp_buf[100] == 0xAA && shx_buf[100] == 0xAA);
+}
